@@ -573,6 +573,12 @@ fn overlap(a: (u64, u64), b: (u64, u64)) -> bool {
 
 /// Full structural validation of a file against the v3 specification (strict writer-side rules).
 pub fn validate(image: &[u8]) -> Result<Validated, String> {
+    validate_opts(image, false)
+}
+
+/// `unknown_ok`: a header counter of 0 is read as "unknown", as the specification allows (used
+/// for archives of other writers; what the crate itself writes is held to the exact counts).
+pub fn validate_opts(image: &[u8], unknown_ok: bool) -> Result<Validated, String> {
     let h = parse_header(image)?;
     if !(1..=4).contains(&h.ic) {
         return Err(format!("internal compression code {}", h.ic));
@@ -659,14 +665,14 @@ pub fn validate(image: &[u8]) -> Result<Validated, String> {
 
     // counters
     let addressed: u64 = w.tile_entries.iter().map(|e| u64::from(e.run_length)).sum();
-    if h.n_addressed != addressed {
+    if h.n_addressed != addressed && !(unknown_ok && h.n_addressed == 0) {
         return Err(format!("header addressed tiles {} != recomputed {}", h.n_addressed, addressed));
     }
-    if h.n_entries != w.tile_entries.len() as u64 {
+    if h.n_entries != w.tile_entries.len() as u64 && !(unknown_ok && h.n_entries == 0) {
         return Err(format!("header tile entries {} != recomputed {}", h.n_entries, w.tile_entries.len()));
     }
     let distinct: HashSet<(u64, u32)> = w.tile_entries.iter().map(|e| (e.offset, e.length)).collect();
-    if h.n_contents != distinct.len() as u64 {
+    if h.n_contents != distinct.len() as u64 && !(unknown_ok && h.n_contents == 0) {
         return Err(format!("header tile contents {} != recomputed {}", h.n_contents, distinct.len()));
     }
     // clustered flag
@@ -904,6 +910,10 @@ pub struct Layout {
     /// encoder parameters of the foreign writer (see `compress_with`)
     #[serde(default)]
     pub strength: u8,
+    /// header counters written as 0 = "unknown" (bit 0 addressed tiles, bit 1 tile entries,
+    /// bit 2 tile contents): the specification lets a writer leave each of them out
+    #[serde(default)]
+    pub unknown_counters: u8,
 }
 
 #[derive(Clone, Debug)]
@@ -1069,12 +1079,21 @@ pub fn write_foreign(
     h.n_entries = tile_entries.len() as u64;
     h.n_contents = n_contents;
     h.clustered = clustered;
+    if layout.unknown_counters & 1 != 0 {
+        h.n_addressed = 0;
+    }
+    if layout.unknown_counters & 2 != 0 {
+        h.n_entries = 0;
+    }
+    if layout.unknown_counters & 4 != 0 {
+        h.n_contents = 0;
+    }
     img[..HEADER_LEN].copy_from_slice(&encode_header(&h));
     if layout.kind_coincidence {
         // contents may have been re-placed: recount from the writer's own output
         if let Ok(w) = walk(&img, &h, Limits::VALID) {
             let distinct: HashSet<(u64, u32)> = w.tile_entries.iter().map(|e| (e.offset, e.length)).collect();
-            h.n_contents = distinct.len() as u64;
+            h.n_contents = if layout.unknown_counters & 4 != 0 { 0 } else { distinct.len() as u64 };
             h.clustered = 0;
             img[..HEADER_LEN].copy_from_slice(&encode_header(&h));
         }
